@@ -479,4 +479,45 @@ pub fn c15(n: u64, seed: u64) {
     for x in &t {
         x.print();
     }
+    // exactly opposite src/dst along every coordinate axis (both directions) and in every coordinate plane, several lengths,
+    // no fallback: a unit quaternion, half turn about an axis perpendicular to src, taking src/|src| onto dst/|dst|
+    let tx = Tally::new("c15.from_arc_opposite_axis_aligned");
+    let dirs: [[f64; 3]; 14] = [[1.0, 0.0, 0.0], [-1.0, 0.0, 0.0], [0.0, 1.0, 0.0], [0.0, -1.0, 0.0], [0.0, 0.0, 1.0], [0.0, 0.0, -1.0],
+        [0.6, 0.8, 0.0], [-0.6, 0.8, 0.0], [0.0, -0.6, 0.8], [0.8, 0.0, -0.6], [-0.8, -0.6, 0.0], [0.0, -0.8, -0.6], [-0.6, 0.0, -0.8], [-0.6, 0.0, 0.8]];
+    for d in dirs.iter() {
+        for &(la, lb) in [(1.0f64, 1.0f64), (3.0, 5.0), (1.0e-3, 2.0), (250.0, 1.0e-2)].iter() {
+            let a = Vector3::new(d[0], d[1], d[2]);
+            let q = Q::from_arc(a * la, -a * lb, None);
+            let ok = close(q.magnitude(), 1.0) && vclose(q * a, -a) && close(q.v.dot(a), 0.0) && q.s.abs() < 1e-9;
+            tx.rec(ok, || format!("from_arc(src = {:?}, dst = {:?}, None) = {:?}", a * la, -a * lb, q));
+            let a32 = Vector3::new(d[0] as f32, d[1] as f32, d[2] as f32);
+            let q32 = Quaternion::<f32>::from_arc(a32 * (la as f32), -a32 * (lb as f32), None);
+            let ok32 = (q32.magnitude() - 1.0).abs() < 1e-5 && (q32 * a32 + a32).magnitude() < 1e-4 && q32.v.dot(a32).abs() < 1e-5;
+            tx.rec(ok32, || format!("f32 from_arc(src = {:?}, dst = {:?}, None) = {:?}", a32 * (la as f32), -a32 * (lb as f32), q32));
+        }
+    }
+    tx.print();
+    c15_probes();
+}
+
+/// known-finding probes: `from_arc` on SHORT vectors.  Its parallel / antiparallel tests `ulps_eq!(dot, +-mag_avg)` use the
+/// absolute default epsilon, so once |src||dst| is below it every pair of directions is "parallel"; and the test
+/// `ulps_eq!(unit_x x src, 0)` is absolute as well, so a tiny src along y finds no axis
+pub fn c15_probes() {
+    let x = Vector3::new(1.0f64, 0.0, 0.0);
+    let q = Quaternion::<f64>::from_arc(Vector3::new(1.0e-8, 0.0, 0.0), Vector3::new(0.0, 1.0e-8, 0.0), None);
+    let r = q * x;
+    println!("probe f64.from_arc.short_vectors input=src=(1e-8,0,0),dst=(0,1e-8,0) output={:?} ok={}", q,
+        (r - Vector3::new(0.0, 1.0, 0.0)).magnitude() <= 1.0e-9);
+    let q32 = Quaternion::<f32>::from_arc(Vector3::new(1.0e-4, 0.0, 0.0), Vector3::new(0.0, 2.0e-4, 0.0), None);
+    let r32 = q32 * Vector3::new(1.0f32, 0.0, 0.0);
+    println!("probe f32.from_arc.short_vectors input=src=(1e-4,0,0),dst=(0,2e-4,0) output={:?} ok={}", q32,
+        (r32 - Vector3::new(0.0, 1.0, 0.0)).magnitude() <= 1.0e-4);
+    let qo = Quaternion::<f64>::from_arc(Vector3::new(1.0e-8, 0.0, 0.0), Vector3::new(-1.0e-8, 0.0, 0.0), None);
+    println!("probe f64.from_arc.short_opposite input=src=(1e-8,0,0),dst=(-1e-8,0,0) output={:?} ok={}", qo,
+        (qo * x + x).magnitude() <= 1.0e-9);
+    let qt = Quaternion::<f64>::from_arc(Vector3::new(0.0, 1.0e-20, 0.0), Vector3::new(0.0, -1.0e10, 0.0), None);
+    let y = Vector3::new(0.0f64, 1.0, 0.0);
+    println!("probe f64.from_arc.tiny_src_opposite input=src=(0,1e-20,0),dst=(0,-1e10,0) output={:?} ok={}", qt,
+        (qt.magnitude() - 1.0).abs() <= 1.0e-9 && (qt * y + y).magnitude() <= 1.0e-9);
 }
